@@ -760,6 +760,13 @@ def _mon_c06_one(spec, run, c0, r0, first=True):
             bad.append(("wrong-exception", f"initialize() raised {r0['exc']}: {r0.get('msg')}"))
         if vlines and vlines[0][1] < r0["t"] - 1000:
             bad.append(("spurious-failure", "initialize() raised although the reply to its synchronisation query had been received in time"))
+        idx_ = c0.get("idx", 0)
+        inits_ = spec.get("inits") or []
+        again = any(r["seq"] > r0["seq"] and r["exc"] is None and (r.get("idx") == idx_ or (r.get("idx", 0) < len(inits_) and inits_[r.get("idx", 0)].get("same_as") == idx_))
+                    for r in api_rets(tr, "sub_initialize"))
+        late_cb = next((e for e in tr if e["k"] == "upd_cb" and e.get("obj", 0) == idx_ and e["seq"] > c0["seq"]), None)
+        if late_cb is not None and not again and spec.get("same_as") is None:
+            bad.append(("callback-after-failed-init", f"an update callback fired ({late_cb['fn']}={late_cb['val']}) on a subunit whose initialize() had raised and was never completed"))
         last_sub = max((c["t_ret"] for c in subs if c["t_ret"] is not None), default=c0["t"])
         want = 2_000_000 + n * 500_000
         if abs((r0["t"] - last_sub) - want) > 2000 and not any(e["k"] in ("read_fault", "fault_injected") for e in tr):
